@@ -42,7 +42,7 @@ def verify_target(target, timeout_ms=20000, verbose=False, repo=None):
         res.undecided = f"no contract for {target}"
         return res
     I = Interp(L, cs)
-    I.spec_builtins = {"fold", "implies", "old", "pre", "events", "same_object"}
+    I.spec_builtins = {"fold", "implies", "old", "pre", "events", "same_object", "final"}
     ex = Explorer()
     try:
         paths = ex.run(lambda p: cs.verify_path(I, c, p))
